@@ -87,6 +87,8 @@ def shape(m):
 def spec_index(n, k):
     """Python sequence semantics for an int / slice key over range(n)"""
     if isinstance(k, slice):
+        if k.step not in (None, 1):
+            raise SpecError('slice step other than 1 is documented as unsupported: an error is expected')
         idx = list(range(n))[slice(k.start, k.stop, k.step)]
     else:
         if not -n <= k < n:
@@ -391,26 +393,19 @@ def coq_expr(case):
     raise AssertionError(op)
 
 
+STRUCTURAL = ('copy', 'transpose', 'reversed', 'getitem', 'reshape', 'flatten', 'hstack', 'vstack', 'concatenate')
+
+
 # ----------------------------------------------------------------------------- known deviations: predicates
 def finding_signature(case, vec=None):
     """which catalogued behaviour (if any) this input exercises; computed from the input only"""
     op, g = case['op'], case['args']
-    if op == 'setitem' and isinstance(g['key'], tuple) and any(
-            (not isinstance(k, slice)) and k == -1 for k in g['key']):
-        return 'setitem:neg1-tuple-index-raises'
-    if op == 'put' and g['vmat']:
-        count = case['ops'][0][0] * case['ops'][0][1]
-        vcols = case['ops'][1][1]
-        if any((ix >= count and ix < vcols - 1) or (ix < count and ix >= vcols) for ix in range(len(g['ind']))):
-            return 'put:matrix-v-bound-uses-self-count'
-    if op == 'argmax' and g['axis'] in (0, 1) and g['bits'] is not None and g['bits'] < case['ops'][0][2]:
-        return 'argmax:bits-truncates-max'
-    if op == 'getitem':
-        ks = g['key'] if isinstance(g['key'], tuple) else (g['key'],)
-        if any(isinstance(k, slice) and k.step not in (None, 1) for k in ks):
-            return 'getitem:slice-step-ignored'
-    if op == 'dot' and case['ops'][0][:2] == (1, 1) and case['ops'][1][:2] != (1, 1):
-        return 'dot:1x1-first-raises'
+    if op == 'dot':
+        (r0, c0, b0, mb0), (r1, c1, b1, mb1) = case['ops'][0], case['ops'][1]
+        vectors = (1 in (r0, c0)) and (1 in (r1, c1)) and (r0, c0) != (1, 1) and (r1, c1) != (1, 1)
+        if vectors and capb(b0, mb0) + capb(b1, mb1) > mb0:
+            # inner product = sum() of element-wise products that were already capped to max_bits
+            return 'dot:inner-product-sums-capped-products'
     return None
 
 
@@ -519,6 +514,16 @@ def gen_cases(ctx, tier):
                     add('getitem', [A], 'sweep', key=(slice(s0, s1), rkey(rng, c)))
         add('getitem', [A], 'sweep', key=slice(None, None, 2))
         add('getitem', [A], 'sweep', key=(slice(None), slice(0, None, 2)))
+
+    # --- inner products / matmul / pow with a small max_bits (capping inside a multi-step computation)
+    for (sa, sb) in [((1, 2), (1, 2)), ((1, 2), (2, 1)), ((2, 1), (1, 2)), ((3, 1), (3, 1)), ((1, 3), (3, 1))]:
+        for (b0, b1, mb) in [(2, 2, 3), (2, 1, 2), (3, 2, 4)]:
+            add('dot', [(sa[0], sa[1], b0, mb), (sb[0], sb[1], b1, mb)], 'cap')
+    for (b0, b1, mb) in [(2, 2, 3), (2, 1, 2), (3, 3, 5)]:
+        add('matmul', [(2, 2, b0, mb), (2, 2, b1, mb)], 'cap')
+        add('pow', [(2, 2, b0, mb)], 'cap', n=3)
+        add('add', [(2, 2, b0, mb), (2, 2, b1, 64)], 'cap')
+        add('mul', [(2, 2, b0, mb), (2, 2, b1, 64)], 'cap')
 
     # --- seeded random cases over all ops
     n_rand = 260 if tier == 'quick' else 2600
@@ -882,6 +887,15 @@ def judge(ctx, idx, case, vecs, info, outs, model):
                 if impl != want:
                     violation('result %s (bits=%d) != integer result %s mod 2^bits = %s' % (
                         impl, info['bits'], exact, want), expected=want, got=impl, result_bits=info['bits'])
+                elif op in STRUCTURAL and impl != exact:
+                    # pure data movement: documented result width = (max of) the operands' widths,
+                    # so no element may lose bits
+                    violation('data-movement operation lost bits: result %s (bits=%d) != %s' % (
+                        impl, info['bits'], exact), expected=exact, got=impl, result_bits=info['bits'])
+                elif op in ('sum', 'min', 'max', 'argmax') and case['args']['axis'] is not None and \
+                        info['bits'] != capb(case['args']['bits'] or capb(case['ops'][0][2], case['ops'][0][3]), 64):
+                    violation('result bits=%d, documented: the `bits` argument / bits of the matrix' % info['bits'],
+                              result_bits=info['bits'])
                 elif decl is not None and decl <= mb:
                     # width exactness: max_bits not reached -> declared width, exact value
                     if info['bits'] != decl or impl != exact:
